@@ -233,11 +233,18 @@ Lemma erase_election_start : forall e me s x,
   ~ In x (others (nd s)) -> erase_S x (election_start e me s) = election_start e me (erase_S x s).
 Proof.
   intros e me s x Hx. unfold election_start; cbv zeta.
-  rewrite erase_on_leader_changed. f_equal.
-  match goal with |- erase_S x (fold_left (fun s y => send y (@?f y) s) ?l ?Y) = _ => rewrite (erase_fold_send x f l Y) end.
-  2:{ unfold set_role; cbv zeta. destruct (_ =? CANDIDATE); exact Hx. }
-  rewrite erase_upd by reflexivity. rewrite erase_set_role. rewrite erase_upd by reflexivity.
-  reflexivity.
+  rewrite erase_on_leader_changed. apply f_equal.
+  set (Y := upd (fun n => n <| term := term n + 1 |> <| voted := Some me |> <| votes := 1 |>)
+              (set_role CANDIDATE (upd (fun n => n <| deadline := (tnow s + gen_timeout e)%Z |> <| leader := None |>) s))).
+  assert (erase_S x Y =
+          upd (fun n => n <| term := term n + 1 |> <| voted := Some me |> <| votes := 1 |>)
+              (set_role CANDIDATE (upd (fun n => n <| deadline := (tnow (erase_S x s) + gen_timeout e)%Z |> <| leader := None |>) (erase_S x s)))) as EY.
+  { subst Y. rewrite erase_upd by reflexivity. rewrite erase_set_role. rewrite erase_upd by reflexivity. reflexivity. }
+  rewrite <- EY.
+  change (term (nd (erase_S x Y))) with (term (nd Y)). change (log (nd (erase_S x Y))) with (log (nd Y)).
+  change (others (nd (erase_S x Y))) with (others (nd Y)).
+  apply (erase_fold_send x (fun _ => RequestVote (term (nd Y)) (last_idx (log (nd Y))) (last_term (log (nd Y))))).
+  subst Y. unfold set_role; cbv zeta. destruct (_ =? CANDIDATE); exact Hx.
 Qed.
 
 Lemma erase_tick_election : forall e s x,
